@@ -147,6 +147,34 @@ def neg_product():
     return plans
 
 
+STATUS_1XX = list(range(100, 113))
+STATUS_REST = list(range(200, 210)) + [300, 301, 401]
+STATUS_UNDEFINED = [1, 99, 113, 199, 210, 302, 400, 402, 65535]
+
+
+def status_plans(thorough, seed_round=0):
+    """negotiation answers over the STATUS CODE space: every defined non-success LLRP status code (all M_ 1xx codes; the P_ 2xx, A_ 3xx,
+    R_ 4xx codes and a few undefined values — sampled in quick, all in thorough) in the expected response type and in an ErrorMessage,
+    answering SetProtocolVersion (reader currently at 1.0.1 able to do 1.1 -> the client asks for 1.1; reader at 1.1 able to do only
+    1.0.1 -> the client asks for 1.0.1) and answering GetSupportedVersion. Outcome by the rule: only ErrorMessage/110 answering
+    GetSupportedVersion completes anything (a 1.0.1 reader); every other non-success code, in either type, fails setup."""
+    plans = []
+    leads = [("cur1max2", (cc.T_GSVR, dict(k="gsvr", cur=1, max=2, status=0))), ("cur2max1", (cc.T_GSVR, dict(k="gsvr", cur=2, max=1, status=0)))]
+    codes = STATUS_1XX + (STATUS_REST + STATUS_UNDEFINED if thorough else
+                          [c for i, c in enumerate(STATUS_REST + STATUS_UNDEFINED) if (i + seed_round) % 3 == 0])
+    for k, code in enumerate(codes):
+        for t, (tname, rtyp) in enumerate((("spvr", cc.T_SPVR), ("errmsg", cc.T_ERR))):
+            for l, (lname, lead) in enumerate(leads):
+                if not thorough and code not in STATUS_1XX and (k + t + l) % 2:
+                    continue
+                plans.append(("%s+spv-%s-st%d" % (lname, tname, code), [lead, (rtyp, dict(k="status", code=code))], "fail"))
+        for tname, rtyp, pl in (("gsvr", cc.T_GSVR, dict(k="gsvr", cur=1, max=2, status=code)), ("errmsg", cc.T_ERR, dict(k="status", code=code))):
+            if not thorough and code not in (109, 110, 111, 112) and (k + seed_round) % 4:
+                continue
+            plans.append(("gsv-%s-st%d" % (tname, code), [(rtyp, pl)], "ok" if (rtyp == cc.T_ERR and code == 110) else "fail"))
+    return plans
+
+
 def tail(b, rnd, good, plan=None, early_at=(), neg_caller=None, more=True):
     """what follows the first message. early_at: positions at which an early caller is started
     ('neg0' = before the GetSupportedVersion reply, 'neg1' = before the SetProtocolVersion reply)."""
@@ -510,12 +538,20 @@ def gen_scripts(seed, thorough, seed_round=0):
     # K. every (reply type x status) answer to GetSupportedVersion and to SetProtocolVersion (neg_product) x an early caller of every
     #    kind at every position: the gate opens only after an expected-type Success; any other answer fails setup and the caller
     n = 0
-    for plan in neg_product():
+    splans = status_plans(thorough, seed_round)
+    for pi, plan in enumerate(neg_product() + splans):
+        by_status = pi >= len(neg_product())
         for pos in ("pre", "gate", "neg0", "neg1"):
             if pos == "neg1" and len(plan[1]) < 2:
                 continue
             n += 1
-            if not thorough and len(plan[1]) < 2 and (n + seed_round) % 2:
+            want = ("pre", "neg1", "gate", "neg0", "pre", "neg1")[(pi + seed_round) % 6]
+            if want == "neg1" and len(plan[1]) < 2:
+                want = "neg0"
+            if by_status and not thorough and pos != want and not (
+                    pos == "pre" and "-st112" in plan[0]):
+                continue            # (status-code plans: one position each per round, rotating; thorough: all)
+            if not by_status and not thorough and len(plan[1]) < 2 and (n + seed_round) % 2:
                 continue
             kind = ("SendMessage", "SendNoWait", "SendFor", "Shutdown")[(n + seed_round) % 4]
             if kind == "Shutdown" and plan[2] == "ok":
